@@ -65,6 +65,7 @@ NEEDS = {
  # wave 4 (8 changes, end of session 3)
  "C01-move-before-loop-ignores-iterable": "a for loop whose body rebinds, by plain assignment of a loop-invariant value, a name the loop's ITERABLE reads (for job in pending: ...; pending = []): the assignment is hoisted in front of the loop",
  "C02-iter-of-set-comprehension": "iter() directly around a SET comprehension whose elements contain duplicates, with output depending on the number of iterated items: rewritten to a plain generator",
+ "C03-remove-nodes-pass-only-for-statements": "every statement of an 'except ...:' handler or 'case ...:' block removed through remove_nodes / alter_code (e.g. a duplicate 'import x' that is the block's only statement, the name also bound as a parameter so that the import is not hoisted first): the block is left empty, invalid text / IndentationError",
  "C04-charno-decode-strict": "non-ASCII source + a rule inserting code at an indented column of an existing line (common tail of an if/else that ends a function, no blank line below) where the next line has a multi-byte character straddling that byte offset: UnicodeDecodeError out of format_code",
  "C06-bool-bounds-sorted-by-line-only": "one and/or chain containing the same numeric comparison twice on the same source line with another operand between them: which duplicate is dropped depends on object addresses (differs between processes)",
  "C10-sort-by-range-start-only": "an insertion (empty range) and a replacement of a non-empty range starting at the same offset, scheduled together, with the inserted text sorting after the replacement text: applied in the wrong order at stale offsets",
